@@ -691,7 +691,26 @@ func runC14(c *Ctx) {
 	R.Rules["S.paired-maps"] = "the slot table and the timer record of a transfer are created and deleted together, under the same key, in every function (the re-request pass runs over the timer records: a record without a pending slot table asks again for a message that was already delivered)"
 	c.pairedMapsLemma("service", "packageParse", "subcontractingRecord", "timeoutRecord")
 	R.Require("S.paired-maps", 3, "")
-	R.Explain = "The wall-clock behaviour (5 s idle, 60 s expiry measured in real time) is not decided. Decided for all inputs: which stored time each threshold is compared with and the folded constants; that the creation time is never rewritten; that the missing list is rebuilt per transfer by an ascending scan of that transfer's slot table naming exactly the empty slots; count / original serial / addressing of the 0x8003; the rate-limit store; expiry removes both map entries before re-requests are built; completion removes both as well (paired maps); routing to the writer."
+	// ---- the 0x8003 body itself: what the server encodes is what a terminal's parser reads, for every count up to 255
+	c.narrowArith(func(fn *ssa.Function) bool { return strings.Contains(c.P.RelPos(fn.Pos()), "p_0x8003.go") }, 2, true)
+	R.Require("S.narrow-arith", 2, "")
+	R.Rules["E3.roundtrip-list"] = "the 0x8003 encoder appends one contiguous 2-byte record per list element behind the 3-byte head; the parser reads element i at 3 + 2*i (see C07)"
+	for _, t0 := range c.c07Types() {
+		if t0.name != "P0x8003" {
+			continue
+		}
+		c.c07Extract(t0)
+		if lr := c.c07List(t0); lr.decided {
+			st, d := report.Discharged, ""
+			if len(lr.problems) > 0 {
+				st, d = report.Violated, strings.Join(lr.problems, "; ")
+			}
+			R.Add("E3.roundtrip-list", fmt.Sprintf("P0x8003 / records of %d bytes from offset %d", lr.stride, lr.base), c.P.RelPos(t0.enc.Pos()), st, d)
+		} else {
+			R.AddInfo("E3.roundtrip-list", "P0x8003 / not covered", "", report.Undecided, "the encoder's loop is not of the append-one-record-per-element form the list comparison describes ("+lr.why+"); the body layout is not decided here")
+		}
+	}
+	R.Explain = "The wall-clock behaviour (5 s idle, 60 s expiry measured in real time) is not decided. Decided for all inputs: which stored time each threshold is compared with and the folded constants; that the creation time is never rewritten; that the missing list is rebuilt per transfer by an ascending scan of that transfer's slot table naming exactly the empty slots; count / original serial / addressing of the 0x8003; the rate-limit store; expiry removes both map entries before re-requests are built; completion removes both as well (paired maps); routing to the writer; the 0x8003 encoder / parser pair (record layout, no 8/16-bit arithmetic in offsets)."
 }
 
 func storesToFieldAny(fn *ssa.Function, field string) []*ssa.Store {
